@@ -355,7 +355,77 @@ class CallbackCycleScn:
         return None, outcome
 
 
-SCENARIOS = {"alloc": AllocScn, "transfer": TransferScn, "cbcycle": CallbackCycleScn}
+class CycleDropScn:
+    """the last handle of an open channel goes away through the cyclic garbage collector (weak
+    references are cleared before finalizers run): the peer must still be told"""
+
+    @staticmethod
+    def scenario(w, P):
+        import gc
+
+        gc.collect()  # nothing stale may be finalised in the middle of this execution
+        S = Session(w, P.get("transport", "popen"), "thread")
+
+        class Holder:
+            pass
+
+        def main():
+            gw = S.open()
+            em = S.proc.execmodel
+            if P["who"] == "init":
+                ctl = gw.remote_exec("c = channel.receive()\nn = 0\nfor x in c:\n    n += 1\nchannel.send(('eof-seen', n))")
+                c = gw.newchannel()
+                ctl.send(c)
+                c.send(1)
+                if P.get("callback"):
+                    c.setcallback(lambda x: None)
+                h = Holder()
+                h.c = c
+                h.me = h
+                del c, h
+                gc.collect()
+            else:
+                ctl = gw.remote_exec(
+                    "import gc\nclass H: pass\nc = channel.gateway.newchannel()\nchannel.send(c)\nc.send(1)\nh = H(); h.c = c; h.me = h\ndel c, h\ngc.collect()\nchannel.send('dropped')\nchannel.receive()"
+                )
+                c = ctl.receive(timeout=10)
+                ctl.receive(timeout=10)
+                n = 0
+                try:
+                    for x in iter(lambda: c.receive(timeout=10), object()):
+                        n += 1
+                except EOFError:
+                    w.observe("init-eof-seen", n)
+                except BaseException as e:  # noqa: BLE001
+                    w.observe("init-exc", type(e).__name__)
+                ctl.send("done")
+            try:
+                w.observe("ctl", ctl.receive(timeout=10) if P["who"] == "init" else "n/a")
+            except BaseException as e:  # noqa: BLE001
+                w.observe("ctl-exc", type(e).__name__)
+            em.sleep(0.5)
+            w.observe("remote-channels", gw.remote_status().numchannels)
+            w.observe("main-done")
+            S.group.terminate(timeout=2.0)
+
+        S.main(main)
+        return S
+
+    @staticmethod
+    def oracle(w, S, P):
+        obs = w.obs
+        out = tuple(e[0] for e in obs)
+        if ("main-done",) not in obs:
+            return ("c18:hang", f"P={P} obs={obs} blocked={w.blocked_at_end}"), out
+        if P["who"] == "init":
+            if ("ctl", ("eof-seen", 1)) not in obs:
+                return ("c18:dropped-channel-not-forgotten", f"P={P}: the channel handle went away through the cyclic garbage collector but the peer never saw the end of the conversation: {obs}"), out
+        elif ("init-eof-seen", 1) not in obs:
+            return ("c18:dropped-channel-not-forgotten", f"P={P}: the worker dropped its channel through the cyclic garbage collector but the initiator never saw the end: {obs}"), out
+        return None, out
+
+
+SCENARIOS = {"alloc": AllocScn, "transfer": TransferScn, "cbcycle": CallbackCycleScn, "cycledrop": CycleDropScn}
 
 
 def stmt_pred(m, q, l):
@@ -403,6 +473,11 @@ def run(tier: str, only=None) -> int:
                 if shape in ("bare", "nested"):
                     P = {"dir": d, "shape": shape, "end": end, "m": 200 if tier == "quick" else 1000, "explore": False}
                     harness.run_exploration(rep, PID, name + "/m-many", TransferScn, P, {"ps": 0, "free": 0}, max_execs=10, horizon=2000000)
+    for who in ("init", "worker"):
+        name = f"cycledrop/{who}"
+        if only and only not in name:
+            continue
+        harness.run_exploration(rep, PID, name, CycleDropScn, {"who": who}, {"ps": 0, "free": 0}, max_execs=10)
     for end in ("remote-close", "remote-error", "cb-raises"):
         name = f"cbcycle/{end}"
         if only and only not in name:
